@@ -5,6 +5,7 @@ package main
 
 import (
 	"fmt"
+	"go/constant"
 	"go/token"
 	"go/types"
 
@@ -18,6 +19,13 @@ type chainStep struct {
 	Name  string
 	Sites []ssa.Instruction
 	Spec  string // site selector, used to look for a relocated step
+	// Find, when set, selects the step's sites in a function (for steps that
+	// share a callee and differ by an argument)
+	Find func(f *ssa.Function) []ssa.Instruction
+	// when the step lives in a private single-caller helper of fn: the helper
+	// and the step's sites inside it (Sites then holds the helper's call site)
+	Host  *ssa.Function
+	Inner []ssa.Instruction
 }
 
 func (c *Ctx) orderChain(rule string, fn *ssa.Function, steps []chainStep) {
@@ -36,12 +44,42 @@ func (c *Ctx) orderChain(rule string, fn *ssa.Function, steps []chainStep) {
 					}
 				}
 			}
-			if hs := c.helperSites(fn, s.Spec); len(hs) > 0 {
-				// the phase moved into a private helper that only fn calls: the helper's
-				// call site stands for the phase
-				steps[i].Sites = hs
+			// the phase moved into a private helper that only fn calls: the helper's
+			// call site stands for the phase, the sites inside it order it against
+			// the other phases of the same helper
+			var host *ssa.Function
+			var inner []ssa.Instruction
+			for _, hf := range c.hostedFns(fn) {
+				if hf == fn {
+					continue
+				}
+				var in []ssa.Instruction
+				if s.Find != nil {
+					in = s.Find(hf)
+				} else if s.Spec != "" {
+					in = asInstrs(c.sitesIn(hf, s.Spec))
+				}
+				if len(in) > 0 && host == nil {
+					host, inner = hf, in
+				}
+			}
+			if host != nil {
+				// the call site of the outermost hosted function in fn
+				top := host
+				for d := 0; d < 4; d++ {
+					cs, _ := c.allCallersOf(top)
+					if len(cs) != 1 || topFunc(cs[0].Fn) == fn {
+						break
+					}
+					top = topFunc(cs[0].Fn)
+				}
+				steps[i].Sites = asInstrs(c.sitesIn(fn, funcKey(top)))
+				steps[i].Host, steps[i].Inner = host, inner
 				s = steps[i]
-				c.note("%s: phase %s is issued through a private helper of %s; its call site is used", rule, s.Name, funcKey(fn))
+				c.note("%s: phase %s is issued through %s, a private helper of %s", rule, s.Name, funcKey(host), funcKey(fn))
+			}
+			if len(s.Sites) > 0 {
+				// handled above
 			} else if moved != "" {
 				c.undecided(fmt.Sprintf("%s: phase %s is no longer called from %s but from %s: the ordering rule must be re-anchored", rule, s.Name, funcKey(fn), moved))
 				continue
@@ -57,8 +95,13 @@ func (c *Ctx) orderChain(rule string, fn *ssa.Function, steps []chainStep) {
 		prev := steps[i-1]
 		good := true
 		var bad ssa.Instruction
-		for _, a := range prev.Sites {
-			for _, b := range s.Sites {
+		pa, sb := prev.Sites, s.Sites
+		if prev.Host != nil && prev.Host == s.Host {
+			// both phases live in the same helper: order them there
+			pa, sb = prev.Inner, s.Inner
+		}
+		for _, a := range pa {
+			for _, b := range sb {
 				if canReach(b, a) || !canReach(a, b) {
 					good = false
 					bad = b
@@ -89,6 +132,10 @@ func (c *Ctx) emitHandlerSites(fn *ssa.Function, isFinal bool) []ssa.Instruction
 	for _, s := range c.sitesIn(fn, pm+":Transition.emitHandler") {
 		args := s.Common().Args
 		if len(args) >= 4 {
+			// the global handlers are called for the pseudo state "Any"
+			if k, ok := args[1].(*ssa.Const); !ok || k.Value == nil || k.Value.Kind() != constant.String || constant.StringVal(k.Value) != "Any" {
+				continue
+			}
 			if b, ok := constBool(args[3]); ok && b == isFinal {
 				out = append(out, s)
 			}
@@ -106,22 +153,26 @@ func (c *Ctx) rulesC05(a *coreAnchors) {
 	c.rule("C05.veto", "handle() forwards a negotiation handler's Canceled (non-final) and processHandlers returns Canceled when a non-final handler returned false; every emit*Events returns the cancel unless the partial-auto branch (IsAuto && State.Auto) applies")
 	f := a.emitEvents
 	steps := []chainStep{
-		{"TransitionStart", asInstrs(c.sitesIn(f, "iface:Tracer.TransitionStart")), "iface:Tracer.TransitionStart"},
-		{"emitExitEvents", asInstrs(c.sitesIn(f, pm+":Transition.emitExitEvents")), pm + ":Transition.emitExitEvents"},
-		{"emitEnterEvents", asInstrs(c.sitesIn(f, pm+":Transition.emitEnterEvents")), pm + ":Transition.emitEnterEvents"},
-		{"emitSelfEvents", asInstrs(c.sitesIn(f, pm+":Transition.emitSelfEvents")), pm + ":Transition.emitSelfEvents"},
-		{"emitStateStateEvents", asInstrs(c.sitesIn(f, pm+":Transition.emitStateStateEvents")), pm + ":Transition.emitStateStateEvents"},
-		{"AnyEnter", c.emitHandlerSites(f, false), pm + ":Transition.emitHandler"},
-		{"setActiveStates", asInstrs(c.sitesIn(f, funcKey(a.setActive))), funcKey(a.setActive)},
-		{"ProcessStateCtx", asInstrs(c.sitesIn(f, pm+":Subscriptions.ProcessStateCtx")), pm + ":Subscriptions.ProcessStateCtx"},
-		{"TransitionFinals", asInstrs(c.sitesIn(f, "iface:Tracer.TransitionFinals")), "iface:Tracer.TransitionFinals"},
-		{"emitFinalEvents", asInstrs(c.sitesIn(f, funcKey(a.emitFinal))), funcKey(a.emitFinal)},
-		{"AnyState", c.emitHandlerSites(f, true), pm + ":Transition.emitHandler"},
-		{"TransitionEnd", asInstrs(c.sitesIn(f, "iface:Tracer.TransitionEnd")), "iface:Tracer.TransitionEnd"},
+		{Name: "TransitionStart", Sites: asInstrs(c.sitesIn(f, "iface:Tracer.TransitionStart")), Spec: "iface:Tracer.TransitionStart"},
+		{Name: "emitExitEvents", Sites: asInstrs(c.sitesIn(f, pm+":Transition.emitExitEvents")), Spec: pm + ":Transition.emitExitEvents"},
+		{Name: "emitEnterEvents", Sites: asInstrs(c.sitesIn(f, pm+":Transition.emitEnterEvents")), Spec: pm + ":Transition.emitEnterEvents"},
+		{Name: "emitSelfEvents", Sites: asInstrs(c.sitesIn(f, pm+":Transition.emitSelfEvents")), Spec: pm + ":Transition.emitSelfEvents"},
+		{Name: "emitStateStateEvents", Sites: asInstrs(c.sitesIn(f, pm+":Transition.emitStateStateEvents")), Spec: pm + ":Transition.emitStateStateEvents"},
+		{Name: "AnyEnter", Sites: c.emitHandlerSites(f, false), Spec: pm + ":Transition.emitHandler", Find: func(g *ssa.Function) []ssa.Instruction { return c.emitHandlerSites(g, false) }},
+		{Name: "setActiveStates", Sites: asInstrs(c.sitesIn(f, funcKey(a.setActive))), Spec: funcKey(a.setActive)},
+		{Name: "ProcessStateCtx", Sites: asInstrs(c.sitesIn(f, pm+":Subscriptions.ProcessStateCtx")), Spec: pm + ":Subscriptions.ProcessStateCtx"},
+		{Name: "TransitionFinals", Sites: asInstrs(c.sitesIn(f, "iface:Tracer.TransitionFinals")), Spec: "iface:Tracer.TransitionFinals"},
+		{Name: "emitFinalEvents", Sites: asInstrs(c.sitesIn(f, funcKey(a.emitFinal))), Spec: funcKey(a.emitFinal)},
+		{Name: "AnyState", Sites: c.emitHandlerSites(f, true), Spec: pm + ":Transition.emitHandler", Find: func(g *ssa.Function) []ssa.Instruction { return c.emitHandlerSites(g, true) }},
+		{Name: "TransitionEnd", Sites: asInstrs(c.sitesIn(f, "iface:Tracer.TransitionEnd")), Spec: "iface:Tracer.TransitionEnd"},
 	}
 	c.orderChain("C05.order", f, steps)
 	for _, st := range steps[1:6] {
-		for i, s := range st.Sites {
+		sites := st.Sites
+		if st.Host != nil {
+			sites = st.Inner // the guard on the running result is tested inside the helper
+		}
+		for i, s := range sites {
 			c.requireGuards("C05.neg", "emitEvents>"+st.Name+nth(i), s, a.notCanceled())
 		}
 	}
